@@ -898,3 +898,27 @@ def open_spans_address_the_periods_of_the_series(K, cls, which, direction):
     K.assume(k < want_n)
     pk = K.index(ps, k)
     K.ensure("k-th addressed period: start plus k steps, in the span's direction", K.And(K.cls_of(pk) is cls, K.attr(pk, "serial") == exp_first + k * step))
+
+
+# ------------------------------------------------------------------------------ redate
+@contract("C10", targets=[P + "Series.redate"], instances=[(CLS[0], n, w) for n in NV for w in ("start", "anchor")], opts={"max_paths": 2000})
+def redate_moves_the_whole_series(K, cls, nv, which):
+    """redate(new) makes `new` the first period of the series; redate(new, old) moves the series so that what was dated
+    `old` is dated `new`.  Every value moves by the same number of periods; nothing else changes."""
+    s, start, data = mk_series(K, "s", cls, nv)
+    old = K.snapshot(data)
+    lo, hi = ser(K, cls)
+    new = K.int("new", lo - 20, hi + 40)
+    if which == "start":
+        K.method(s, "redate", K.obj(cls, serial=new))
+        move = new - start
+    else:
+        anchor = K.int("anchor", lo - 20, hi + 40)
+        K.method(s, "redate", K.obj(cls, serial=new), K.obj(cls, serial=anchor))
+        move = new - anchor
+    ns, nd = state(K, s)
+    t, c = generic_cell(K, cls, nv)
+    K.instantiate(t)
+    K.instantiate(t - move)
+    K.ensure("value at t is the value that was at t - move", K.cell_eq(V(K, ns, nd, t, c), V(K, start, old, t - move, c)))
+    K.ensure("RI", RI(K, s, nv, cls))
